@@ -167,6 +167,9 @@ type Payload struct {
 
 func (e *emitter) add(g Graph) {
 	h := fw.HashOf(g.Mods, g.Order, g.Mut, g.ViaValue, g.Leaks, g.SingDirect, g.Exit, g.Catch, g.Callback)
+	if g.CbForm != "" {
+		h = fw.HashOf(h, g.CbForm)
+	}
 	if e.seen[h] {
 		return
 	}
@@ -736,36 +739,58 @@ func famReexport(e *emitter) {
 
 // exitMode is one combination of how functions end, where thrown results are caught and whether
 // function values travel across the module boundaries.
-type exitMode struct{ exit, catch, callback string }
+type exitMode struct{ exit, catch, callback, form string }
 
 // exitModes lists every combination except the plain one (tail value, no callbacks), which all
-// other families use.
+// other families use: first the ones whose function values are named functions handed down, then
+// the ones with function values returned by maker functions and / or written as function literals.
 func exitModes() []exitMode {
 	var out []exitMode
-	for _, cb := range []string{"", "own", "relay"} {
+	type cbf struct{ cb, form string }
+	for _, c := range []cbf{{"", ""}, {"own", ""}, {"relay", ""}, {"made", ""}, {"own", "lit"}, {"relay", "lit"}, {"made", "lit"}} {
 		for _, ex := range []string{"", "return", "throw", "throw-deep"} {
-			if ex == "" && cb == "" {
+			if ex == "" && c.cb == "" {
 				continue
 			}
-			out = append(out, exitMode{ex, "", cb})
+			out = append(out, exitMode{ex, "", c.cb, c.form})
 			if ex == "throw" || ex == "throw-deep" {
-				out = append(out, exitMode{ex, "entry", cb})
+				out = append(out, exitMode{ex, "entry", c.cb, c.form})
 			}
 		}
 	}
 	return out
 }
 
-// withCallback gives every module the private function k that it hands out as a callback.
-func withCallback(g *Graph, mode string) {
+// withCallback gives every module the private function k that it hands out as a function value
+// (mode "made": and the pub maker function that returns it, imported wherever the module is
+// imported). It must be called after the import statements of the graph have been made.
+func withCallback(g *Graph, mode, form string) {
 	if mode == "" {
 		return
 	}
-	g.Callback = mode
+	g.Callback, g.CbForm = mode, form
 	for i := range g.Mods {
 		g.Mods[i].Items = append(g.Mods[i].Items, Item{Name: cbName, Kind: "fn"})
 	}
 	g.Order = append([]string{cbName}, g.Order...)
+	if mode != "made" {
+		return
+	}
+	for i := range g.Mods {
+		g.Mods[i].Items = append(g.Mods[i].Items, Item{Name: makerName(g.Mods[i].Name), Kind: "fn", Pub: true, Maker: true})
+	}
+	for i := range g.Mods {
+		m := &g.Mods[i]
+		done := map[string]bool{m.Name: true} // (a module has its own maker already)
+		for ii := range m.Imports {
+			im := &m.Imports[ii]
+			if g.mod(im.From) == nil || done[im.From] {
+				continue
+			}
+			done[im.From] = true
+			im.Items = append(append([]ImpItem{}, im.Items...), ImpItem{Name: makerName(im.From)})
+		}
+	}
 }
 
 // famExits: entry + n-1 modules, every acyclic set of import edges that reaches every module;
@@ -823,7 +848,7 @@ func famExits(e *emitter, n int, modes []exitMode, vias int) {
 				for via := 0; via < vias; via++ {
 					g := build(mask, overlap == 1)
 					g.Exit, g.Catch, g.ViaValue = md.exit, md.catch, via == 1
-					withCallback(&g, md.callback)
+					withCallback(&g, md.callback, md.form)
 					e.add(g)
 				}
 			}
@@ -839,9 +864,9 @@ func famExits(e *emitter, n int, modes []exitMode, vias int) {
 			for i := range g.Mods {
 				g.Mods[i].Items = append(g.Mods[i].Items, Item{Name: "K", Kind: "sing"})
 			}
-			withCallback(&g, md.callback)
 			autoImport(&g, 1, "b")
 			autoImport(&g, 0, "a", "b")
+			withCallback(&g, md.callback, md.form)
 			e.add(g)
 		}
 	}
@@ -1009,7 +1034,7 @@ func famSample(e *emitter, r *fw.Rng, r2 *fw.Rng, r3 *fw.Rng, count int) {
 		if r3.Chance(1, 3) {
 			md := modes[r3.Intn(len(modes))]
 			g.Exit, g.Catch = md.exit, md.catch
-			withCallback(&g, md.callback)
+			withCallback(&g, md.callback, md.form)
 		}
 		e.add(g)
 	}
@@ -1038,7 +1063,7 @@ func Bound(tier string) string {
 		"bare: entry + a, b where a and/or b declare no singleton, with and without a global, every subset of {main->a, main->b, a->b, b->a}. " +
 		"reexport: `import trigger minute` / `import templ FooFeature` from a user module that imported it from the host or has no such name; importer = entry or non-entry; alone or first in a braced list. " +
 		"leaks: a module uses fn/let/type x (pub or private) of another module without importing it: user = entry, sibling or imported module; with and without a third module importing it legally. " +
-		"exits: entry + 1 or 2 modules" + ex4 + ", every acyclic set of import edges that reaches every module (edge function, private fn f, private global under one shared name or one name per module, a pub fn g in the last module), in every combination of how functions end {tail value, `return`, `throw(result)`, throw from a private helper of the module} x where a thrown result is caught {`try` around every call, only in the entry's main} x function values handed across the boundary {none, every edge function is handed its caller's private k and calls it, the entry's k is handed down the chain} except the plain one; direct calls and calls through function values; plus one diamond whose modules all declare `$K` (extraction parameters or `$K` expressions) in every such combination. " +
+		"exits: entry + 1 or 2 modules" + ex4 + ", every acyclic set of import edges that reaches every module (edge function, private fn f, private global under one shared name or one name per module, a pub fn g in the last module), in every combination of how functions end {tail value, `return`, `throw(result)`, throw from a private helper of the module} x where a thrown result is caught {`try` around every call, only in the entry's main} x function values crossing the boundary {none, every edge function is handed its caller's private k and calls it, the entry's k is handed down the chain, every module's pub maker function returns its private k and the importers call what it returns} x what the function value is {the named function, a function literal `fn() -> str { k() }` written where the value is made} except the plain one; direct calls and calls through function values; plus one diamond whose modules all declare `$K` (extraction parameters or `$K` expressions) in every such combination. " +
 		"mangle: modules a / a_b (m / m_n) with items b_c / c (n_x1 / x1) of every kind pair (pub/private fn/let) in three import shapes. mut: 14 graphs in which functions write through pub and imported globals"
 }
 
